@@ -111,11 +111,21 @@ func h07Name(alphabet string) string {
 // name. Two augmenting modules add a leaf each, with symbolic names, to a symbolic target.
 func H07err() {
 	n1, n2 := h07Name("xyzw"), h07Name("xyzw")
-	t1, t2 := h07Name("clq"), h07Name("clq") // c: container with x and y; l: a leaf; q: missing
+	// c: container with x and y; l: a leaf; q: missing; d: anydata; r: an rpc (its input and output
+	// can be augmented, the rpc itself cannot); n: a notification
+	t1, t2 := h07Name("clqdrn"), h07Name("clq")
 	order := symChoice(2)
-	base := `module m { namespace "urn:m"; prefix m; container c { leaf x { type string; } leaf y { type string; } } leaf l { type string; } }`
-	a := `module a { namespace "urn:a"; prefix a; import m { prefix mm; } augment /mm:` + t1 + ` { leaf ` + n1 + ` { type string; } } }`
-	b := `module b { namespace "urn:b"; prefix b; import m { prefix mm; } augment /mm:` + t2 + ` { leaf ` + n2 + ` { type int8; } } }`
+	base := `module m { yang-version 1.1; namespace "urn:m"; prefix m; grouping g { leaf w { type boolean; } } container c { leaf x { type string; } leaf y { type string; } } leaf l { type string; } anydata d; rpc r; notification n { leaf x { type string; } leaf y { type string; } } }`
+	// the body of an augment: a leaf of its own, or a use of the grouping g of the target's module (leaf w)
+	body1, body2 := `leaf `+n1+` { type string; }`, `leaf `+n2+` { type int8; }`
+	if symBool() {
+		body1, n1 = `uses mm:g;`, "w"
+	}
+	if symBool() {
+		body2, n2 = `uses mm:g;`, "w"
+	}
+	a := `module a { yang-version 1.1; namespace "urn:a"; prefix a; import m { prefix mm; } augment /mm:` + t1 + ` { ` + body1 + ` } }`
+	b := `module b { yang-version 1.1; namespace "urn:b"; prefix b; import m { prefix mm; } augment /mm:` + t2 + ` { ` + body2 + ` } }`
 	note(a + b)
 	texts := []string{base, a, b}
 	if order == 1 {
@@ -127,7 +137,8 @@ func H07err() {
 		return
 	}
 	errs := ms.Process()
-	bad1 := symOr(t1 != "c", symOr(n1 == "x", n1 == "y"))
+	holder1 := symOr(t1 == "c", t1 == "n") // targets that can have children (both hold x and y)
+	bad1 := symOr(symNot(holder1), symOr(n1 == "x", n1 == "y"))
 	bad2 := symOr(t2 != "c", symOr(n2 == "x", n2 == "y"))
 	clash := symAnd(symAnd(t1 == "c", t2 == "c"), n1 == n2)
 	bad := symOr(symOr(bad1, bad2), clash)
@@ -140,13 +151,17 @@ func H07err() {
 	check(symNot(bad), "an augment whose target does not exist, cannot have children, or already has a child of that name is reported")
 	hWF(ms)
 	c := ToEntry(ms.Modules["m"]).Dir["c"]
-	e1, e2 := c.Dir[n1], c.Dir[n2]
+	c1 := c
+	if t1 == "n" {
+		c1 = ToEntry(ms.Modules["m"]).Dir["n"]
+	}
+	e1, e2 := c1.Dir[n1], c.Dir[n2]
 	check(e1 != nil && e2 != nil, "both augments applied")
 	if e1 != nil && e2 != nil {
-		check(e1.Namespace().Name == "urn:a" && e1.Type.Kind == Ystring, "first augment's leaf comes from module a")
-		check(e2.Namespace().Name == "urn:b" && e2.Type.Kind == Yint8, "second augment's leaf comes from module b")
+		check(e1.Namespace().Name == "urn:a" && (e1.Type.Kind == Ystring || e1.Type.Kind == Ybool), "first augment's leaf comes from module a")
+		check(e2.Namespace().Name == "urn:b" && (e2.Type.Kind == Yint8 || e2.Type.Kind == Ybool), "second augment's leaf comes from module b")
 	}
-	check(len(c.Dir) == 4, "nothing else was added")
+	check((c1 == c && len(c.Dir) == 4) || (c1 != c && len(c.Dir) == 3 && len(c1.Dir) == 3), "nothing else was added")
 }
 
 // H07chain: a chain of d augments, each onto the node the previous one adds, all declared in
